@@ -35,6 +35,7 @@ type Contract struct {
 	Inline  bool     // callers inline the body instead of using the contract
 	Modular []string // callees (contract keys) that THIS function applies by contract although they are marked inline
 	UsedModular bool // named in some "modular" directive: its frame is checked like that of a non-inline contract
+	SplitReturns bool // inlined: every way of reaching a `return true` stays a group of its own in the caller (one per failing step)
 	Props   []string
 	File    string
 	Line    int
@@ -162,7 +163,7 @@ func (sp *Specs) parseFile(path string, goFile bool) error {
 	}
 	// join continuation lines: a line whose first word is not a keyword continues the previous one
 	keywords := map[string]bool{"onalloc": true, "func": true, "lib": true, "pure": true, "abstract": true, "ghost": true, "requires": true, "ensures": true,
-		"loop": true, "assigns": true, "fresh": true, "foreign": true, "names": true, "inline": true, "modular": true, "property": true, "assume": true, "canary": true, "cover": true, "effectfree": true, "enter": true, "leave": true, "writes": true}
+		"loop": true, "assigns": true, "fresh": true, "foreign": true, "names": true, "inline": true, "modular": true, "splitreturns": true, "property": true, "assume": true, "canary": true, "cover": true, "effectfree": true, "enter": true, "leave": true, "writes": true}
 	var joined []line
 	for _, l := range lines {
 		w := strings.Fields(l.s)[0]
@@ -291,6 +292,8 @@ func (sp *Specs) parseFile(path string, goFile bool) error {
 				cur.Inline = true
 			case "modular":
 				cur.Modular = append(cur.Modular, strings.TrimSpace(rest))
+			case "splitreturns":
+				cur.SplitReturns = true
 			case "effectfree":
 				cur.Pure = true
 			case "assume":
